@@ -42,6 +42,12 @@ FamSimVO == [FamSimV EXCEPT !.VO = TRUE]
 FamSimWO == [FamSimW EXCEPT !.VO = TRUE]
 FamSimM == Fam(4, 6, 3, {"c", "a", "b", "A"}, {"2", "0.5"}, {"sqr", "g", "h"}, {"i", "j", "0"}, {"i", "j"}, {"2", "-1"}, AllWraps, AllMuts, None, None)
 FamSimC == Fam(4, 6, 3, {"c", "a", "b", "A"}, {"2", "0.5"}, {"sqr", "g", "h"}, {"i", "j", "0"}, {"i", "j"}, {"2", "-1"}, AllWraps, None, AllCors, None)
+\* version 1 only: dirac and indexed numbers, lengths deduced through terms, sums, traces
+FamV1 == [Fam(2, 2, 2, {"a", "u", "A"}, {"2"}, None, IJ, None, {"2"}, {"scope"}, None, None, None) EXCEPT !.X = {"DELTA", "cix"}, !.PK = TRUE]
+FamV1b == [Fam(3, 2, 3, {"a"}, {"2"}, None, IJ, None, None, None, None, None, None) EXCEPT !.X = {"$", "cix"}, !.PK = TRUE]
+FamV1q == [Fam(2, 2, 2, {"a", "u"}, {"2"}, None, IJ, None, None, None, None, None, None) EXCEPT !.X = {"$", "cix"}, !.PK = TRUE]
+\* every action enabled, tiny: the per-action coverage (vacuity guard) of the bare machine
+FamCov == [Fam(2, 1, 2, {"a"}, {"2"}, {"g"}, {"i"}, {"i"}, {"2"}, {"scope"}, AllMuts, AllCors, {1}) EXCEPT !.X = {"$", "cix"}]
 \* tiny vocabularies for the spec mutants
 FamT1 == Fam(1, 0, 1, {"T"}, None, None, IJK, None, None, None, None, None, None)
 FamSmall == Fam(2, 2, 2, {"c", "a", "A"}, None, None, {"i"}, None, None, {"scope"}, None, None, None)
